@@ -418,12 +418,14 @@ def _enumerated_cases():
 def _strategy():
     from hypothesis import strategies as st
 
-    pool_i = st.sampled_from([0, 0, 0, 2, 2, 4, 5, 1, 3])
+    pool_i = st.sampled_from([0, 0, 0, 0, 2, 2, 2, 4, 5, 4, 5, 1, 3])
     name = st.sampled_from(["all", "all", "all", "event", "start", "stop", "descriptor"])
     psub = st.fixed_dictionaries({"op": st.just("psub"), "f": pool_i, "name": name})
     punsub = st.fixed_dictionaries({"op": st.just("punsub"), "t": st.integers(0, 3), "form": st.sampled_from(["kw", "pos"])})
     simple = st.sampled_from([{"op": "open"}, {"op": "ev"}, {"op": "ev"}, {"op": "close"}])
-    plan = st.lists(st.one_of(simple, simple, psub, punsub), min_size=1, max_size=9).map(
+    by_ptag = {"simple": simple, "psub": psub, "punsub": punsub}
+    plan_op = st.sampled_from(["simple", "simple", "simple", "psub", "psub", "punsub"]).flatmap(by_ptag.__getitem__)
+    plan = st.lists(plan_op, min_size=1, max_size=9).map(
         lambda ops: ops if any(o["op"] == "open" for o in ops) else [{"op": "open"}, {"op": "ev"}] + ops
     )
     call = st.fixed_dictionaries(
@@ -437,7 +439,9 @@ def _strategy():
     sub = st.fixed_dictionaries({"op": st.just("sub"), "f": pool_i, "name": name})
     unsub = st.fixed_dictionaries({"op": st.just("unsub"), "t": st.integers(0, 5)})
     reset = st.just({"op": "reset"})
-    op = st.one_of(sub, sub, sub, sub, unsub, unsub, call, call, call, call, call, reset)
+    # weights via sampled_from + flatmap (one_of de-duplicates repeated strategies)
+    by_tag = {"sub": sub, "unsub": unsub, "call": call, "reset": reset}
+    op = st.sampled_from(["sub"] * 6 + ["unsub"] * 4 + ["call"] * 7 + ["reset"]).flatmap(by_tag.__getitem__)
     return st.lists(op, min_size=2, max_size=12).map(
         lambda ops: {"ops": ops if any(o["op"] == "call" for o in ops) else ops + [{"op": "call", "subs": [], "plan": [{"op": "open"}, {"op": "ev"}]}]}
     )
@@ -451,7 +455,7 @@ def run(ctx):
         "one callable (function / bound method / equal pair / same object) subscribed twice with every pair of names in "
         "the scope pairs perm+perm, perm+per-call, perm+in-plan, per-call+in-plan, one removal, then runs"
     )
-    ctx.hyp(_strategy, check_case, max_examples=ctx.pick(2500, 40000))
+    ctx.hyp(_strategy, check_case, max_examples=ctx.pick(2000, 40000))
 
 
 def replay(case):
